@@ -210,6 +210,28 @@ def _snap_ctmpl(c):
     return ([c[k] for k in SIX], list(c.extradata) if c.extradata else [])
 
 
+def _as_subclass(stmpl, ctmpl):
+    from simfile.sm import SMChart, SMSimfile
+
+    class MySMChart(SMChart):
+        pass
+
+    class MySMSimfile(SMSimfile):
+        pass
+
+    def chart(c):
+        n = MySMChart.from_msd([c[k] for k in SIX] + list(c.extradata or []))
+        return n
+
+    s2 = None
+    if stmpl is not None:
+        s2 = MySMSimfile(string="")
+        for k, v in stmpl.items():
+            s2[k] = v
+        s2.charts = [chart(c) for c in stmpl.charts]
+    return s2, (chart(ctmpl) if ctmpl is not None else None)
+
+
 def convert_and_judge(ssc, beh, stmpl, ctmpl, labels):
     """the oracle for one call of ssc_to_sm; appends labels; returns the outcome kind"""
     from simfile.convert import InvalidPropertyException, ssc_to_sm
@@ -267,7 +289,7 @@ def convert_and_judge(ssc, beh, stmpl, ctmpl, labels):
         unmodified("by a refused conversion")
         got_kind = "invalid"
     else:
-        need(type(result) is SMSimfile, lambda: f"result is {type(result).__name__}, not SMSimfile")
+        need(isinstance(result, SMSimfile), lambda: f"result is {type(result).__name__}, not an SMSimfile")
         got_props = dict(result.items())
         got_charts = [[c[k] for k in SIX] for c in result.charts]
         oks = [o for o in outcomes if o[0] == "ok"]
@@ -275,7 +297,7 @@ def convert_and_judge(ssc, beh, stmpl, ctmpl, labels):
         match = [o for o in oks if o[1] == got_props and o[2] == got_charts]
         need(match, lambda: f"returned properties {_short(got_props)} charts {_short(got_charts)}, expected {expected()}; {ctx()}")
         for c in result.charts:
-            need(type(c) is SMChart, lambda: f"result chart is {type(c).__name__}")
+            need(isinstance(c, SMChart), lambda: f"result chart is {type(c).__name__}")
         # templates respected: extra NOTES components come from the simfile template's own charts / the chart template
         got_extra = [list(c.extradata) if c.extradata else [] for c in result.charts]
         exp_extra = ([e for _, e in st_snap[1]] if stmpl is not None else []) + [list(ct_snap[1]) if ctmpl is not None else []] * len(src_charts)
@@ -346,6 +368,10 @@ def check(case):
             ssc = G.build_ssc(case["src"])
         stmpl = G.build_sm(case["stmpl"]) if case.get("stmpl") is not None else None
         ctmpl = G.build_sm_chart(case["ctmpl"]) if case.get("ctmpl") is not None else None
+        if case.get("subclass"):
+            # templates may be instances of a caller's own subclass of the SM classes
+            stmpl, ctmpl = _as_subclass(stmpl, ctmpl)
+            labels.append("subclass-templates")
         beh = case["beh"]
         pairs, charts = G.snap_ssc(ssc)
         for w in [dict(pairs).get("WARPS")] + [dict(items).get("WARPS") for items in charts]:
@@ -425,7 +451,7 @@ NONDEFAULT = {
     "ATTACKS": "TIME=1.0:LEN=2.0:MODS=drunk", "LABELS": "0.000=intro", "TIMESIGNATURES": "0.000=3=4", "COMBOS": "0.000=2",
     "SPEEDS": "0.000=2.000=0.000=0", "SCROLLS": "0.000=0.500", "TICKCOUNTS": "0.000=8",
 }
-PADS = [(" ", ""), ("", "\n"), ("\t", " \r\n"), ("\n", "\n"), ("  ", "  ")]
+PADS = [(" ", ""), ("", "\n"), ("\t", " \r\n"), ("\n", "\n"), ("  ", "  "), (" ", ""), ("", "\n"), ("\x0c", ""), ("", "\u3000"), ("\xa0", "\x0b")]
 SM_FREE_KEYS = [
     "TITLE", "SUBTITLE", "ARTIST", "GENRE", "CREDIT", "BANNER", "BACKGROUND", "CDTITLE", "MUSIC", "SAMPLESTART",
     "SELECTABLE", "BGCHANGES", "FGCHANGES", "KEYSOUNDS", "TICKCOUNTS", "INSTRUMENTTRACK", "LYRICSPATH", "ANIMATIONS",
@@ -604,6 +630,7 @@ def s_ssc2sm(draw):
         "beh": beh,
         "stmpl": stmpl,
         "ctmpl": ctmpl,
+        "subclass": (stmpl is not None or ctmpl is not None) and draw(st.integers(0, 5)) == 0,
         "avoided": avoided,
     }
 
